@@ -68,6 +68,14 @@ def binop_src(op, node):
     return op.join((node.left.src, node.right.src))
 
 
+def receiver_src(node):
+    # the object of `.attr`, `(...)` and `[...]` has to be a primary: parenthesize everything that binds less tightly
+    src = node.src
+    if getattr(node, 'priority', 0) > 2 or isinstance(node, ast.Constant) and type(node.value) is int:
+        src = '(%s)' % src  # `(1).real`: an integer literal directly before a dot would be read as a float
+    return src
+
+
 def ast2src(tree):
     src = getattr(tree, 'src', None)
     if src is not None:
@@ -106,8 +114,10 @@ class PythonTranslator(ASTTranslator):
         return 'if %s' % node.test.src
     def postExpr(translator, node):
         return node.value.src
+    @priority(15)
     def postIfExp(translator, node):
         return '%s if %s else %s' % (node.body.src, node.test.src, node.orelse.src)
+    @priority(16)
     def postLambda(translator, node):
         return 'lambda %s: %s' % (node.args.src, node.body.src)
     def postarguments(translator, node):
@@ -206,23 +216,24 @@ class PythonTranslator(ASTTranslator):
         return '+' + node.operand.src
     @priority(4)
     def postInvert(translator, node):
-        return '~' + node.expr.src
+        return '~' + node.operand.src
     @priority(3)
     def postPow(translator, node):
         return binop_src(' ** ', node)
     def postAttribute(translator, node):
         node.priority = 2
-        return '.'.join((node.value.src, node.attr))
+        return '.'.join((receiver_src(node.value), node.attr))
     def postCall(translator, node):
         node.priority = 2
         if len(node.args) == 1 and isinstance(node.args[0], ast.GeneratorExp):
-            return node.func.src + node.args[0].src
+            return receiver_src(node.func) + node.args[0].src
         args = [ arg.src for arg in node.args ] + [ kw.src for kw in node.keywords ]
-        return '%s(%s)' % (node.func.src, ', '.join(args))
+        return '%s(%s)' % (receiver_src(node.func), ', '.join(args))
     def postkeyword(translator, node):
         if node.arg is None:
             return '**' + node.value.src
         return '%s=%s' % (node.arg, node.value.src)
+    @priority(11)
     def postStarred(translator, node):
         return '*' + node.value.src
     def postSubscript(translator, node):
@@ -230,13 +241,17 @@ class PythonTranslator(ASTTranslator):
         x = node.slice
         if isinstance(x, ast.Index):
             x = x.value
-        if isinstance(x, ast.Tuple):
+        if isinstance(x, ast.Tuple) and not x.elts:
+            key = '()'
+        elif isinstance(x, ast.Tuple) and len(x.elts) == 1:
+            key = x.elts[0].src + ','
+        elif isinstance(x, ast.Tuple):
             key = ', '.join([elt.src for elt in x.elts])
         elif isinstance(x, ast.Constant) and isinstance(x.value, tuple):
             key = repr(x.value)[1:-1]
         else:
             key = x.src
-        return '%s[%s]' % (node.value.src, key)
+        return '%s[%s]' % (receiver_src(node.value), key)
     def postIndex(translator, node):  # Python <= 3.7
         return node.value.src
     def postSlice(translator, node):
@@ -253,6 +268,8 @@ class PythonTranslator(ASTTranslator):
     def postConstant(translator, node):
         node.priority = 1
         value = node.value
+        if type(value) in (int, float) and repr(value).startswith('-'):
+            node.priority = 4  # a folded negative number is printed like a unary minus
         if type(value) is float: # for Python < 2.7
             s = str(value)
             if float(s) == value: return s
@@ -281,7 +298,7 @@ class PythonTranslator(ASTTranslator):
         return '{%s}' % ', '.join('%s:%s' % (key.src, value.src) for key, value in zip(node.keys, node.values))
     def postSet(translator, node):
         node.priority = 1
-        return '{%s}' % ', '.join(item.src for item in node.nodes)
+        return '{%s}' % ', '.join(item.src for item in node.elts)
     def postName(translator, node):
         node.priority = 1
         return node.id
